@@ -29,6 +29,39 @@ impl<T> RwLock<T> {
 }
 #[verifier::external_body] #[verifier::reject_recursive_types(T)] pub struct Mutex<T> { _t: T }
 
+impl vstd::std_specs::convert::FromSpecImpl<Failed> for Fatal {
+    open spec fn obeys_from_spec() -> bool { true }
+    open spec fn from_spec(v: Failed) -> Fatal { Fatal }
+}
+impl From<Failed> for Fatal {
+    #[verifier::external_body]
+    fn from(value: Failed) -> Fatal { unimplemented!() }
+}
+impl vstd::std_specs::convert::FromSpecImpl<Fatal> for Failed {
+    open spec fn obeys_from_spec() -> bool { true }
+    open spec fn from_spec(v: Fatal) -> Failed { Failed }
+}
+impl From<Fatal> for Failed {
+    #[verifier::external_body]
+    fn from(value: Fatal) -> Failed { unimplemented!() }
+}
+impl vstd::std_specs::convert::FromSpecImpl<Fatal> for RunFailed {
+    open spec fn obeys_from_spec() -> bool { false }
+    open spec fn from_spec(v: Fatal) -> RunFailed { arbitrary() }
+}
+impl From<Fatal> for RunFailed {
+    #[verifier::external_body]
+    fn from(value: Fatal) -> RunFailed { unimplemented!() }
+}
+impl vstd::std_specs::convert::FromSpecImpl<Failed> for RunFailed {
+    open spec fn obeys_from_spec() -> bool { false }
+    open spec fn from_spec(v: Failed) -> RunFailed { arbitrary() }
+}
+impl From<Failed> for RunFailed {
+    #[verifier::external_body]
+    fn from(value: Failed) -> RunFailed { unimplemented!() }
+}
+
 // ---- paths ------------------------------------------------------------------
 #[verifier::external_body] pub struct Path { _opaque: () }
 pub struct PathBuf { pub p: Path }
@@ -36,6 +69,33 @@ impl std::ops::Deref for PathBuf {
     type Target = Path;
     #[verifier::external_body]
     fn deref(&self) -> (r: &Path) ensures *r == self.p { unimplemented!() }
+}
+impl Clone for PathBuf {
+    #[verifier::external_body]
+    fn clone(&self) -> (r: PathBuf) ensures r == *self { unimplemented!() }
+}
+impl PathBuf {
+    #[verifier::external_body]
+    pub fn join(&self, name: &str) -> (r: PathBuf) { unimplemented!() }
+    #[verifier::external_body]
+    pub fn push(&mut self, name: &str) { unimplemented!() }
+    #[verifier::external_body]
+    pub fn as_path(&self) -> (r: &Path) ensures *r == self.p { unimplemented!() }
+}
+impl Path {
+    #[verifier::external_body]
+    pub fn to_path_buf(&self) -> (r: PathBuf) ensures r.p == *self { unimplemented!() }
+    #[verifier::external_body]
+    pub fn join(&self, name: &str) -> (r: PathBuf) { unimplemented!() }
+    #[verifier::external_body]
+    pub fn file_name(&self) -> (r: Option<&OsStr>) { unimplemented!() }
+    // file-system queries: nothing is known about their answers
+    #[verifier::external_body]
+    pub fn is_dir(&self) -> (r: bool) { unimplemented!() }
+    #[verifier::external_body]
+    pub fn is_file(&self) -> (r: bool) { unimplemented!() }
+    #[verifier::external_body]
+    pub fn exists(&self) -> (r: bool) { unimplemented!() }
 }
 // anything that names a path (std: AsRef<Path>)
 pub trait AsPath { spec fn pv(&self) -> Path; }
@@ -46,6 +106,10 @@ impl<'a> AsPath for &'a PathBuf { open spec fn pv(&self) -> Path { self.p } }
 impl PartialEqSpecImpl<str> for OsStr {
     open spec fn obeys_eq_spec() -> bool { false }
     open spec fn eq_spec(&self, other: &str) -> bool { arbitrary() }
+}
+impl OsStr {
+    #[verifier::external_body]
+    pub fn to_str(&self) -> (r: Option<&str>) { unimplemented!() }
 }
 impl PartialEq<str> for OsStr {
     #[verifier::external_body]
@@ -68,6 +132,8 @@ impl DirEntry {
     pub fn is_file(&self) -> (r: bool) ensures r == self.is_file_spec() { unimplemented!() }
     #[verifier::external_body]
     pub fn file_name(&self) -> (r: &OsStr) { unimplemented!() }
+    #[verifier::external_body]
+    pub fn len(&self) -> (r: u64) { unimplemented!() }
 }
 pub uninterp spec fn listing(dir: Path) -> Seq<DirEntry>;
 
@@ -99,6 +165,12 @@ pub fn fatal_read_dir<'a>(path: &'a Path) -> (r: Result<ReadDir<'a>, Fatal>)
 { unimplemented!() }
 
 #[verifier::external_body] pub struct IoError { _opaque: () }
+#[derive(Structural, PartialEq, Eq)]
+pub enum ErrorKind { NotFound, UnexpectedEof, Other }
+impl IoError {
+    #[verifier::external_body]
+    pub fn kind(&self) -> (r: ErrorKind) { unimplemented!() }
+}
 
 // ---- archives and deletion permissions ------------------------------------
 // The rpkiNotify URI recorded in the RRDP archive file at `p` (None: not a readable archive).
@@ -115,6 +187,19 @@ pub open spec fn archive_in_use(p: Path) -> bool {
 pub fn fs_remove_file<P: AsPath>(path: P) -> (r: Result<(), IoError>)
     requires !archive_in_use(path.pv()),
 { unimplemented!() }
+// utils::fatal variants of the same primitives carry the same permissions.
+#[verifier::external_body]
+pub fn fatal_remove_file(path: &Path) -> (r: Result<(), Failed>)
+    requires !archive_in_use(*path),
+{ unimplemented!() }
+#[verifier::external_body]
+pub fn fatal_remove_all(path: &Path) -> (r: Result<(), Failed>)
+    requires !archive_in_use(*path),
+{ unimplemented!() }
+#[verifier::external_body]
+pub fn fatal_remove_dir_all(path: &Path) -> (r: Result<(), Failed>) { unimplemented!() }
+#[verifier::external_body]
+pub fn fatal_create_dir_all(path: &Path) -> (r: Result<(), Failed>) { unimplemented!() }
 // Stray directories: nothing is claimed about their content (archives are files).
 #[verifier::external_body]
 pub fn fs_remove_dir_all<P: AsPath>(path: P) -> (r: Result<(), IoError>)
@@ -127,16 +212,89 @@ impl RrdpArchive {
     pub fn open(path: Arc<PathBuf>) -> (r: Result<RrdpArchive, RunFailed>)
         ensures r matches Ok(a) ==> a.path_spec() == path.p,
     { unimplemented!() }
+    // Like open, but a missing file is Ok(None).
+    #[verifier::external_body]
+    pub fn try_open(path: Arc<PathBuf>) -> (r: Result<Option<RrdpArchive>, RunFailed>)
+        ensures r matches Ok(Some(a)) ==> a.path_spec() == path.p,
+    { unimplemented!() }
+    #[verifier::external_body]
+    pub fn path(&self) -> (r: &Arc<PathBuf>) ensures r.p == self.path_spec() { unimplemented!() }
     #[verifier::external_body]
     fn load_state(&self) -> (r: Result<RepositoryState, RunFailed>)
         ensures r matches Ok(s) ==> archive_notify(self.path_spec()) == Some(s.rpki_notify),
     { unimplemented!() }
 }
-impl RunFailed {
-    #[verifier::external_body]
-    fn should_retry(self) -> (r: bool) ensures r == !self.fatal { unimplemented!() }
-}
+
 
 pub assume_specification<T: ?Sized, A: std::alloc::Allocator> [<std::sync::Arc<T, A> as std::convert::AsRef<T>>::as_ref] (a: &std::sync::Arc<T, A>) -> (r: &T)
     ensures r == &**a,
 ;
+pub assume_specification<T: core::marker::Destruct> [std::mem::drop] (_0: T);
+// ---- std functions without a vstd specification (ASSUMED: their std definitions).
+// Declared so that a refactoring that starts using one of them is verified, not rejected.
+pub assume_specification<T: Ord + core::marker::Destruct> [std::cmp::min] (a: T, b: T) -> (r: T)
+    ensures <T as vstd::std_specs::cmp::OrdSpec>::obeys_cmp_spec() ==> r == (if vstd::std_specs::cmp::OrdSpec::cmp_spec(&b, &a) == std::cmp::Ordering::Less { b } else { a }),
+;
+pub assume_specification<T: Ord + core::marker::Destruct> [std::cmp::max] (a: T, b: T) -> (r: T)
+    ensures <T as vstd::std_specs::cmp::OrdSpec>::obeys_cmp_spec() ==> r == (if vstd::std_specs::cmp::OrdSpec::cmp_spec(&b, &a) == std::cmp::Ordering::Less { a } else { b }),
+;
+pub assume_specification [std::cmp::Ordering::is_lt] (o: std::cmp::Ordering) -> (r: bool)
+    ensures r == (o == std::cmp::Ordering::Less);
+pub assume_specification [std::cmp::Ordering::is_gt] (o: std::cmp::Ordering) -> (r: bool)
+    ensures r == (o == std::cmp::Ordering::Greater);
+pub assume_specification [std::cmp::Ordering::is_le] (o: std::cmp::Ordering) -> (r: bool)
+    ensures r == (o != std::cmp::Ordering::Greater);
+pub assume_specification [std::cmp::Ordering::is_ge] (o: std::cmp::Ordering) -> (r: bool)
+    ensures r == (o != std::cmp::Ordering::Less);
+pub assume_specification<T: core::marker::Destruct> [bool::then_some] (b: bool, t: T) -> (r: Option<T>)
+    ensures r == (if b { Some(t) } else { None::<T> });
+pub assume_specification<T: core::marker::Destruct> [std::option::Option::<T>::xor] (a: Option<T>, b: Option<T>) -> (r: Option<T>)
+    ensures r == (match (a, b) { (Some(x), None) => Some(x), (None, Some(y)) => Some(y), _ => None::<T> });
+pub assume_specification<'a, T: Copy> [std::option::Option::<&T>::copied] (o: Option<&'a T>) -> (r: Option<T>)
+    ensures r == (match o { Some(x) => Some(*x), None => None::<T> });
+pub assume_specification<T: core::marker::Destruct> [std::option::Option::<T>::or] (a: Option<T>, b: Option<T>) -> (r: Option<T>)
+    ensures r == (if a is Some { a } else { b });
+pub assume_specification<T: core::marker::Destruct, U: core::marker::Destruct> [std::option::Option::<T>::and] (a: Option<T>, b: Option<U>) -> (r: Option<U>)
+    ensures r == (if a is Some { b } else { None::<U> });
+pub assume_specification<T: core::marker::Destruct, U: core::marker::Destruct> [std::option::Option::<T>::zip] (a: Option<T>, b: Option<U>) -> (r: Option<(T, U)>)
+    ensures r == (match (a, b) { (Some(x), Some(y)) => Some((x, y)), _ => None::<(T, U)> });
+pub assume_specification<T, F: FnOnce(T) -> bool + core::marker::Destruct> [std::option::Option::<T>::is_some_and] (o: Option<T>, f: F) -> (r: bool)
+    requires o matches Some(x) ==> f.requires((x,)),
+    ensures match o { Some(x) => f.ensures((x,), r), None => !r };
+pub assume_specification<T, F: FnOnce(T) -> bool + core::marker::Destruct> [std::option::Option::<T>::is_none_or] (o: Option<T>, f: F) -> (r: bool)
+    requires o matches Some(x) ==> f.requires((x,)),
+    ensures match o { Some(x) => f.ensures((x,), r), None => r };
+pub assume_specification<T: core::marker::Destruct, P: FnOnce(&T) -> bool + core::marker::Destruct> [std::option::Option::<T>::filter] (o: Option<T>, p: P) -> (r: Option<T>)
+    requires o matches Some(x) ==> p.requires((&x,)),
+    ensures match o { Some(x) => (r == Some(x) && p.ensures((&x,), true)) || (r is None && p.ensures((&x,), false)), None => r is None };
+pub assume_specification<T: core::marker::Destruct, F: FnOnce() -> Option<T> + core::marker::Destruct> [std::option::Option::<T>::or_else] (o: Option<T>, f: F) -> (r: Option<T>)
+    requires o is None ==> f.requires(()),
+    ensures match o { Some(x) => r == o, None => f.ensures((), r) };
+pub assume_specification<T, U: core::marker::Destruct, F: FnOnce(T) -> U + core::marker::Destruct> [std::option::Option::<T>::map_or] (o: Option<T>, d: U, f: F) -> (r: U)
+    requires o matches Some(x) ==> f.requires((x,)),
+    ensures match o { Some(x) => f.ensures((x,), r), None => r == d };
+pub assume_specification<T, U, D: FnOnce() -> U + core::marker::Destruct, F: FnOnce(T) -> U + core::marker::Destruct> [std::option::Option::<T>::map_or_else] (o: Option<T>, d: D, f: F) -> (r: U)
+    requires o matches Some(x) ==> f.requires((x,)), o is None ==> d.requires(()),
+    ensures match o { Some(x) => f.ensures((x,), r), None => d.ensures((), r) };
+pub assume_specification<T: core::marker::Destruct, E: core::marker::Destruct> [std::result::Result::<T, E>::unwrap_or] (x: Result<T, E>, d: T) -> (r: T)
+    ensures r == (match x { Ok(v) => v, Err(_) => d });
+pub assume_specification<T, E: core::marker::Destruct, F: core::marker::Destruct> [std::result::Result::<T, E>::or] (a: Result<T, E>, b: Result<T, F>) -> (r: Result<T, F>)
+    ensures match a { Ok(v) => r == Ok::<T, F>(v), Err(_) => r == b };
+pub assume_specification<T, E, U, F: FnOnce(T) -> Result<U, E> + core::marker::Destruct> [std::result::Result::<T, E>::and_then] (x: Result<T, E>, f: F) -> (r: Result<U, E>)
+    requires x matches Ok(v) ==> f.requires((v,)),
+    ensures match x { Ok(v) => f.ensures((v,), r), Err(e) => r == Err::<U, E>(e) };
+pub assume_specification<T, E: core::marker::Destruct, F: FnOnce(T) -> bool + core::marker::Destruct> [std::result::Result::<T, E>::is_ok_and] (x: Result<T, E>, f: F) -> (r: bool)
+    requires x matches Ok(v) ==> f.requires((v,)),
+    ensures match x { Ok(v) => f.ensures((v,), r), Err(_) => !r };
+pub assume_specification<T, E, F: FnOnce(E) -> T + core::marker::Destruct> [std::result::Result::<T, E>::unwrap_or_else] (x: Result<T, E>, f: F) -> (r: T)
+    requires x matches Err(e) ==> f.requires((e,)),
+    ensures match x { Ok(v) => r == v, Err(e) => f.ensures((e,), r) };
+pub assume_specification<T> [std::mem::replace] (dest: &mut T, src: T) -> (r: T)
+    ensures r == *old(dest), *final(dest) == src;
+pub assume_specification<T: Default + core::marker::Destruct, E: core::marker::Destruct> [std::result::Result::<T, E>::unwrap_or_default] (x: Result<T, E>) -> (r: T)
+    ensures x matches Ok(v) ==> r == v;
+pub assume_specification<T, E, U: core::marker::Destruct, F: FnOnce(T) -> U + core::marker::Destruct> [std::result::Result::<T, E>::map_or] (x: Result<T, E>, d: U, f: F) -> (r: U)
+    requires x matches Ok(v) ==> f.requires((v,)),
+    ensures match x { Ok(v) => f.ensures((v,), r), Err(_) => r == d };
+pub assume_specification [<std::cmp::Ordering as PartialEq>::eq] (a: &std::cmp::Ordering, b: &std::cmp::Ordering) -> (r: bool)
+    ensures r == (*a == *b);
